@@ -240,7 +240,7 @@ Plan generate(uint64_t seed, const std::string& focus) {
             s.s1 = "t/" + std::to_string(next_id);
             s.s2 = std::to_string(next_id) + ":" + filler(r, biased_len(r));
             s.props = gen_publish_props(r, true, forbid_ok ? (uint16_t)(alias_max + 1) : alias_max);
-            if (forbid_ok && r.chance(0.2)) s.props.push_back(P(P_TOPIC_ALIAS, (uint32_t)alias_max + 1));
+            if (forbid_ok && r.chance(0.2) && !find_prop(s.props, P_TOPIC_ALIAS)) s.props.push_back(P(P_TOPIC_ALIAS, (uint32_t)alias_max + 1));
             break;
         }
         case SK::Subscribe: {
